@@ -347,10 +347,17 @@ class ExcelOpxWrapper(ExcelWrapper):
             # work around type coercion to datetime that causes some issues
 
             if address.is_unbounded_range:
-                # bound the address range to the data in the spreadsheet
-                address = address & AddressRange(
-                    (1, 1, *self.max_col_row(sheet.title)),
-                    sheet=sheet.title)
+                # bound the open direction of the address range to the data
+                # in the spreadsheet, the result can be a single cell and
+                # can lie beside the data
+                max_col, max_row = self.max_col_row(sheet.title)
+                bounds = (address.start.col_idx or 1, address.start.row or 1,
+                          address.end.col_idx or max_col,
+                          address.end.row or max_row)
+                if bounds[:2] == bounds[2:]:
+                    address = AddressCell(bounds, sheet=sheet.title)
+                else:
+                    address = AddressRange(bounds, sheet=sheet.title)
 
             cells = sheet[address.coordinate]
             cells_dataonly = sheet_dataonly[address.coordinate]
